@@ -190,6 +190,23 @@ class StepOps:
         if last == "len" and len(args) == 1:
             el = self._elements(args[0], env)
             return len(el) if el is not None else UNKNOWN
+        if last == "slice" and self._resolved_kind(node.func) in ("builtin", "stdlib") and not node.keywords:
+            vals: List[Any] = []
+            for a in node.args:
+                if isinstance(a, ast.Starred):
+                    el = self._elements(self.ev.eval(a.value, env), env)
+                    if el is None:
+                        return UNKNOWN
+                    vals.extend(el)
+                else:
+                    vals.append(self.ev.eval(a, env))
+            if not all(v is None or (isinstance(v, int) and not isinstance(v, bool)) for v in vals):
+                return UNKNOWN
+            try:
+                sl = slice(*vals)
+            except Exception:  # noqa: BLE001
+                return UNKNOWN
+            return ("slice", sl.start, sl.stop, sl.step)
         if last in ("list", "tuple"):
             if not node.args:
                 return self._new(env, ()) if last == "list" else ("SEQ", ())
@@ -226,6 +243,8 @@ class StepOps:
         return v
 
     def attr(self, value, name, node, env):
+        if isinstance(value, tuple) and value[:1] == ("slice",) and name in ("start", "stop", "step"):
+            return value[{"start": 1, "stop": 2, "step": 3}[name]]
         return UNKNOWN
 
     def other(self, e, env, ev):
@@ -320,6 +339,8 @@ class StepOps:
 
     def binop(self, op, left, right, env):
         if isinstance(left, int) and isinstance(right, int) and not isinstance(left, bool) and not isinstance(right, bool):
+            if op in ("Mod", "FloorDiv"):
+                return UNKNOWN if right == 0 else (left % right if op == "Mod" else left // right)
             return {"Add": left + right, "Sub": left - right, "Mult": left * right}.get(op, UNKNOWN)
         return UNKNOWN
 
